@@ -982,3 +982,21 @@ def _iota(ex, args, n):
     nd = z3.Lambda([j], z3.If(z3.And(j >= a.off, j < b.off), val + (j - a.off), z3.Select(v.data, j)))
     ex.write(p, VecVal(v.len, nd, v.el))
     return None
+
+
+@free('is_sorted_until')
+def _is_sorted_until(ex, args, n):
+    """first position whose element is smaller than its predecessor (or last)"""
+    a, b = ex.ev(args[0]), ex.ev(args[1])
+    if len(args) > 2:
+        raise Unsupported('is_sorted_until with comparator')
+    if not (isinstance(a, PtrVal) and isinstance(b, PtrVal) and a.path is not None and a.path.same(b.path)):
+        raise Unsupported('std::is_sorted_until over non-contiguous range')
+    p, v = _vec_at(ex, a.path)
+    ex.oblige('bounds', 'range', z3.And(a.off >= 0, a.off <= b.off, b.off <= v.len), n)
+    j = z3.Int(ex.fresh_name('until'))
+    k = z3.Int(ex.fresh_name('k!su'))
+    ex.assume(z3.And(j >= a.off, j <= b.off, z3.Implies(a.off < b.off, j > a.off),
+                     z3.ForAll([k], z3.Implies(z3.And(a.off <= k, k + 1 < j), z3.Select(v.data, k) <= z3.Select(v.data, k + 1))),
+                     z3.Implies(j < b.off, z3.Select(v.data, j) < z3.Select(v.data, j - 1))))
+    return PtrVal(a.path, j, a.el)
